@@ -152,6 +152,17 @@ func genHistory(r *rand.Rand, profile string) History {
 		if r.Intn(15) == 0 && len(s.power) > 1 { // sporadic second absentee (usually not enough to jail)
 			blk.Absent = append(blk.Absent, s.anyActive(r))
 		}
+		// hazard: while a validator is being jailed, aim admin / self operations at it (one of them lands in the jailing block)
+		if len(blk.Absent) > 0 && victim >= 0 && r.Intn(2) == 0 && b >= 2 {
+			switch r.Intn(3) {
+			case 0:
+				blk.Txs = append(blk.Txs, tx(rm(pick(r, []int{adminID, victim}), victim)))
+			case 1:
+				blk.Txs = append(blk.Txs, tx(sp(adminID, victim, uint64(1+r.Intn(30))*1_000_000, true)))
+			default:
+				blk.Txs = append(blk.Txs, tx(MsgSpec{Kind: "unjail", Sender: victim, Val: victim}))
+			}
+		}
 		ntx := pick(r, []int{0, 0, 1, 1, 1, 2, 3})
 		if b < 2 {
 			ntx = 0 // CheckTx for heights 1 and 2 still runs at a genesis height, where the PoA decorators are off
@@ -200,7 +211,13 @@ func (s *simState) genWorkflow(r *rand.Rand) MsgSpec {
 		id := s.next
 		s.next++
 		s.pending[id] = true
-		return createMsg(id, id)
+		m := createMsg(id, id)
+		if r.Intn(2) == 0 { // rates inside the ante range, around a possible chain minimum
+			m.Rate = pick(r, []*big.Int{mulFrac(1, 10), mulFrac(2, 10), mulFrac(3, 10), mulFrac(5, 10)})
+			m.MaxRate = pick(r, []*big.Int{m.Rate, mulFrac(5, 10), new(big.Int).Set(ten18)})
+			m.MaxChg = pick(r, []*big.Int{big.NewInt(0), mulFrac(1, 10)})
+		}
+		return m
 	case x < 30: // admit a pending validator
 		if id, ok := anyKey(r, s.pending); ok {
 			p := pick(r, []uint64{1, 1, 2, 3, 5, 10})
@@ -282,7 +299,7 @@ func (s *simState) genHazard(r *rand.Rand, g Genesis) MsgSpec {
 		return pick(r, []MsgSpec{sp(adminID, unknownVal, 5*M, true), rm(adminID, unknownVal), rm(adminID, s.next%poolSize),
 			{Kind: "removepending", Sender: adminID, Val: unknownVal}})
 	case 5: // parameter change
-		p := paramTuple{Unbonding: pick(r, []int64{int64(10e9), int64(20e9), int64(30e9)}), MaxVals: pick(r, []uint32{1, 2, 3, 4, 100}), MaxEntries: 7, Hist: pick(r, []uint32{0, 5, 10000}), Denom: "stake", MinComm: pick(r, []*big.Int{big.NewInt(0), mulFrac(5, 100)})}
+		p := paramTuple{Unbonding: pick(r, []int64{int64(10e9), int64(20e9), int64(30e9)}), MaxVals: pick(r, []uint32{1, 2, 3, 4, 100}), MaxEntries: 7, Hist: pick(r, []uint32{0, 5, 10000}), Denom: "stake", MinComm: pick(r, []*big.Int{big.NewInt(0), mulFrac(5, 100), mulFrac(2, 10), mulFrac(3, 10), mulFrac(5, 10)})}
 		return MsgSpec{Kind: "params", Sender: adminID, Params: &p}
 	case 6: // remove down to one (and try zero)
 		v := s.anyActive(r)
